@@ -1,4 +1,5 @@
 """C04 - access control is complete: refused requests cause no upstream activity."""
+import json
 import vlib, pipecommon
 
 
@@ -26,7 +27,37 @@ def run(ctx):
     ctx.mc("Pipeline.tla", "MC_Pipeline.cfg")
     binp = ctx.build()
     pipecommon.run_gen(ctx, binp, "Access", "Q" if q else "T", key, "access_case")
+    time_frames(ctx, binp, q)
     ctx.exhaustive = not q
+
+
+def time_frames(ctx, binp, q):
+    """--allow-time-frame: the textual form through the real parser, entry lists x instants through the real proxy with the
+    clock of the check set to the instant (TimeFrame.tla)"""
+    ctx.mc("TimeFrame.tla", "MC_TimeFrame.cfg")
+    recs, _, _, _ = ctx.gen("TimeFrame.tla", "GEN_TimeFrame.cfg")
+    recs = [r for r in recs if "kind" in r]
+    if q:
+        parse = [r for r in recs if r["kind"] == "parse"]
+        match = [r for r in recs if r["kind"] == "match"]
+        # every single-entry list and a sample of the pairs; every documented text and a sample of the others
+        lists = sorted(set(json.dumps(r["list"]) for r in match))
+        keep = set(l for l in lists if len(json.loads(l)) == 1) | set(vlib.sample_list(ctx.rng, [l for l in lists if len(json.loads(l)) == 2], 10))
+        recs = [r for r in match if json.dumps(r["list"]) in keep] + [r for r in parse if r["parse"]["ok"]] + \
+            vlib.sample_list(ctx.rng, [r for r in parse if not r["parse"]["ok"]], 3000)
+    out = ctx.run_vh(binp, ["c04-tf"], cases=recs, timeout=3000)
+    out, crashed = ctx.nocrash(out, "C04:crash:time-frame")
+    if not crashed and len(out) != len(recs):
+        raise vlib.Infra("c04-tf: %d results for %d cases" % (len(out), len(recs)))
+    for r in out:
+        ctx.evaluations += 1
+        if r["kind"] == "match" or r.get("accepted"):
+            ctx.nontrivial.add("tf:" + json.dumps(r.get("list") or r.get("text")) + json.dumps(r.get("t")))
+        if not r["ok"]:
+            ctx.violation("C04:time-frame:" + ("parse" if r["kind"] == "parse" else "allowed-outside" if not r.get("allowed") else "refused-inside"), r)
+        else:
+            ctx.traces_ok += 1
+    ctx.sample({"time_frame_case": [r for r in recs if r["kind"] == "match"][:1]})
 
 
 def replay(ctx, path):
